@@ -105,12 +105,37 @@ Definition cv_get_or (t : cv) (k : key) (dflt : cv) : cv :=
 Definition cv_setitem (t : cv) (k : key) (v : cv) : cv :=
   match t with Node m => Node (dset k v m) | Leaf _ _ => t end.
 
-(* copy.copy(v): a value-level no-op; its aliasing behaviour is what ConfigHeap.v models *)
+(* copy.copy(v): a value-level no-op; its aliasing behaviour is what ConfigAlias.v models *)
 Definition cv_copy (v : cv) : cv := v.
+(* copy.deepcopy(v): likewise *)
+Definition cv_deepcopy (v : cv) : cv := v.
 
 (* no_default_value: unwrap a DefaultValue *)
 Definition unwrap_default (v : cv) : cv :=
   match v with Leaf _ a => Leaf false a | Node _ => v end.
+
+(* ---- primitives used by the translated cpp _validate_language_options ---- *)
+
+(* a value used as a dict key / compared with a str: only str values (DefaultValue hashes and compares as its value) *)
+Definition cv_str (v : cv) : option key :=
+  match v with Leaf _ (AStr s) => Some s | _ => None end.
+
+(* bool(v) *)
+Definition atom_truthy (a : atom) : bool :=
+  match a with
+  | ANone => false
+  | ABool b => b
+  | AInt z => negb (Z.eqb z 0)
+  | AStr s => match s with [] => false | _ => true end
+  | AOpaque _ => true
+  end.
+
+Definition cv_truthy (v : cv) : bool :=
+  match v with Leaf _ a => atom_truthy a | Node m => match m with [] => false | _ => true end end.
+
+(* s.lower().replace("_", "-") on ASCII *)
+Definition lower_dash (s : list N) : list N :=
+  map (fun c => if (65 <=? c) && (c <=? 90) then c + 32 else if c =? 95 then 45 else c) s.
 
 (* a well-formed document: unique keys at every level *)
 Fixpoint wf (v : cv) : bool :=
